@@ -99,6 +99,8 @@ pub struct Router {
     // `Router` needs to be `Clone + Send`, and we need to `task.await` in its `shutdown()` impl.
     task: Arc<Mutex<Option<AbortOnDropHandle<()>>>>,
     cancel_token: CancellationToken,
+    /// Cancelled once the main run task has terminated.
+    finished_token: CancellationToken,
 }
 
 /// Builder for creating a [`Router`] for accepting protocols.
@@ -427,10 +429,6 @@ impl Router {
     /// If some [`ProtocolHandler`] panicked in the accept loop, this will propagate
     /// that panic into the result here.
     pub async fn shutdown(&self) -> Result<(), n0_future::task::JoinError> {
-        if self.is_shutdown() {
-            return Ok(());
-        }
-
         // Trigger shutdown of the main run task by activating the cancel token.
         self.cancel_token.cancel();
 
@@ -438,8 +436,11 @@ impl Router {
 
         // MutexGuard is not held across await point
         let task = self.task.lock().expect("poisoned").take();
-        if let Some(task) = task {
-            task.await?;
+        match task {
+            Some(task) => task.await?,
+            // Another call to `shutdown` (possibly on a clone) is awaiting the main task,
+            // or has done so already: wait until the main task has actually terminated.
+            None => self.finished_token.cancelled().await,
         }
 
         Ok(())
@@ -516,8 +517,12 @@ impl RouterBuilder {
         // Our own shutdown works with a cancellation token.
         let cancel = CancellationToken::new();
         let cancel_token = cancel.clone();
+        let finished = CancellationToken::new();
+        let finished_token = finished.clone();
 
         let run_loop_fut = async move {
+            // Signals that this future has terminated. Declared first, so dropped last.
+            let _finished_guard = finished_token.drop_guard();
             // Make sure to cancel the token, if this future ever exits.
             let _cancel_guard = cancel_token.clone().drop_guard();
             // We create a separate cancellation token to stop any `ProtocolHandler::accept` futures
@@ -618,6 +623,7 @@ impl RouterBuilder {
             endpoint: self.endpoint,
             task: Arc::new(Mutex::new(Some(task))),
             cancel_token: cancel,
+            finished_token: finished,
         }
     }
 }
